@@ -10,8 +10,14 @@ namespace etl {
 
 /// \brief Forms the logical conjunction of the type traits B..., effectively
 /// performing a logical AND on the sequence of traits.
-template <typename... B>
-struct conjunction : bool_constant<(B::value && ...)> { };
+template <typename...>
+struct conjunction : true_type { };
+
+template <typename B1>
+struct conjunction<B1> : B1 { };
+
+template <typename B1, typename... Bn>
+struct conjunction<B1, Bn...> : conditional_t<static_cast<bool>(B1::value), conjunction<Bn...>, B1> { };
 
 template <typename... B>
 inline constexpr bool conjunction_v = conjunction<B...>::value;
